@@ -123,6 +123,10 @@ class Ctx:
     @staticmethod
     def _zero_coverage(out):
         zero = []
+        # TLC prints interim coverage reports too (late actions still show 0:0 there): use the last one only
+        k = out.rfind("The coverage statistics at")
+        if k >= 0:
+            out = out[k:]
         for line in out.splitlines():
             m = re.match(r"^<(\w+) line (\d+), col .* of module (\w+)>: (\d+):(\d+)", line.strip())
             if m and int(m.group(4)) == 0 and int(m.group(5)) == 0:
